@@ -2230,3 +2230,24 @@ def _reduce(it, a, k, node):
     for x in seq:
         acc = it.call(f, [acc, x], {}, node)
     return acc
+
+
+@reg("jnp.polyval")
+def _polyval(it, a, k, node):
+    p = a[0] if not isinstance(a[0], Tens) else a[0]
+    x = _arr(a[1])
+    if isinstance(p, Tens):
+        if p.ndim != 1 or p.has_sym():
+            raise Unsupported("polyval with a non 1-d / symbolic-length coefficient array")
+        cs = list(p.data)
+    else:
+        cs = [num_to_poly(c) for c in p]
+    n = len(cs)
+
+    def ev(e):
+        r = Poly()
+        for i, c in enumerate(cs):
+            r = r + as_poly(c) * e ** (n - 1 - i)
+        return r
+
+    return x.map(ev)
